@@ -236,3 +236,37 @@ func zzC24TPBody(n int) {
 	}
 	verifReach("end")
 }
+
+var zzC24LongLens = []int{62, 63, 64, 255, 256, 16382, 16383, 16384, 65534, 65535, 65536, 65537, 70000, 131072}
+
+//verif:harness C24 transport_params_marshal_long unwind=40 paths=4000
+//verif:expect end
+//verif:doc TransportParameters.Marshal of [padding or fake parameter with a long value, GREASE-QUIC-bit]: value length case-split over 14 lengths around the varint and 8/16-bit boundaries (62..64, 255/256, 16382..16384, 65534..65537, 70000, 131072), symbolic fake id, first/last value bytes symbolic and the rest zero; the body parses with the reference decoder to the same two (id, value) entries, i.e. the length field carries the whole value length and the following entry stays framed.
+func zzC24TransportParamsMarshalLong() {
+	n := zzC24LongLens[verifChoice("lenclass", len(zzC24LongLens))]
+	val := make([]byte, n)
+	val[0] = verifU8("first")
+	val[n-1] = verifU8("last")
+	var tp TransportParameter
+	var id uint64
+	if verifBool("fake") {
+		id = verifU64("fakeid")
+		verifAssume(id != 0 && id < 1<<62)
+		tp = &FakeQUICTransportParameter{Id: id, Val: val}
+	} else {
+		id = 0x15
+		tp = PaddingTransportParameter(val)
+	}
+	want := append([]byte{}, val...)
+	b := TransportParameters{tp, &GREASEQUICBit{}}.Marshal()
+	got, ok := zzRefParseTransportParams(b)
+	verifAssert(ok, "long-parses")
+	verifAssert(len(got) == 2, "long-same-count")
+	if ok && len(got) == 2 {
+		verifAssert(got[0].id == id, "long-same-id")
+		verifAssert(len(got[0].val) == n, "long-same-length")
+		verifAssert(bytes.Equal(got[0].val, want), "long-same-value")
+		verifAssert(got[1].id == 0x2ab2 && len(got[1].val) == 0, "long-next-entry-framed")
+	}
+	verifReach("end")
+}
